@@ -501,7 +501,7 @@ func c11Gen(c *core.Ctx) {
 		}
 	}
 	// sampled deeper trees
-	n3 := c.Pick(100000, 3000000)
+	n3 := c.Pick(100000, 15000000)
 	for i := 0; i < n3; i++ {
 		if !c.Mine() {
 			continue
